@@ -46,6 +46,7 @@ type netCfg struct {
 	allPull      int // 0 mixed, 1 all pull, 2 all push
 	advStranger, advRole, advRestart, advDup, advTerminal, advLocalRole bool
 	holdOpen     bool // the responder's application never lifts limits / releases finalization: channels stay open and quiescent
+	subs         bool // extra global subscribers (late subscribe / unsubscribe), per-transfer subscribers, transfers in both directions
 	stopMid      bool // Manager.Stop on one node while transfers are active, optionally followed by a new manager on the same datastore
 	sendFail     bool // from some graphsync delivery on, every stream write fails (streams still open) until the settle phase
 }
@@ -109,6 +110,8 @@ type netRun struct {
 	crashed   bool
 	sendFailAt int
 	rawSent   []rawRec
+	subs      []*subLog
+	reverse   []datatransfer.ChannelID
 }
 
 var ctxBG = context.Background()
@@ -425,6 +428,9 @@ func (nr *netRun) open(x *xfer) {
 	}
 	if x.perChA {
 		opts = append(opts, datatransfer.WithTransportOptions(a.UseStoreOption(st.LinkSystem())))
+	}
+	if nr.cfg.subs && x.rawKind == "" {
+		opts = append(opts, nr.perTransferSub(x))
 	}
 	if x.rawKind != "" {
 		// a hand-built new request without voucher / without selector, sent by the legitimate peer's network layer
@@ -901,6 +907,9 @@ func netTransfer(mk func(r *RunCtx) netCfg) func(r *RunCtx) {
 		if cfg.stopMid {
 			nr.installStopMid()
 		}
+		if cfg.subs {
+			nr.installSubs()
+		}
 		r.S.SetPreemptions(r.Intn(4))
 		for _, x := range nr.xs {
 			x := x
@@ -914,6 +923,9 @@ func netTransfer(mk func(r *RunCtx) netCfg) func(r *RunCtx) {
 		nr.w.Net.Cut(nr.A.ID, nr.B.ID, false)
 		simrt.Sleep(30 * time.Minute)
 		nr.evaluate()
+		if cfg.subs {
+			nr.checkSubscribers()
+		}
 		nr.adversarialPhase()
 		if nr.A.Up {
 			nr.A.StopTracked(false)
@@ -930,6 +942,11 @@ func (nr *netRun) evaluate() {
 	r := nr.r
 	nr.A.collectGS()
 	nr.B.collectGS()
+	if len(nr.reverse) > 0 {
+		// transfers in both directions with equal transfer ids (C17's subscriber stratum): the per-transfer oracles of
+		// the other properties identify channels by transfer id and direction A->B, so they stay out of such runs
+		return
+	}
 	nr.checkChannelCount()
 	for _, x := range nr.xs {
 		if x.raw {
@@ -1219,6 +1236,14 @@ func init() {
 		c.stopMid = true
 		return c
 	}
+	subsCfg := func(r *RunCtx) netCfg {
+		c := mixCfg(r)
+		c.nCh = 1 + r.Intn(3)
+		c.subs = true
+		c.allPull = []int{0, 0, 2}[r.Intn(3)] // pushes give the reverse pulls something to fetch
+		return c
+	}
+	Register("C17", Stratum{Name: "net-subscribers", Weight: 4, Fn: netTransfer(subsCfg)})
 	Register("C20", Stratum{Name: "net-mixed", Weight: 2, Fn: netTransfer(mixCfg)}, Stratum{Name: "net-stop-while-active", Weight: 3, Fn: netTransfer(stopCfg)})
 	Register("C01",
 		Stratum{Name: "net-fault-free", Weight: 2, Fn: netTransfer(base)},
